@@ -31,6 +31,9 @@ BASES = [
     # every wrapper combination around a suite: decorated x async x function / method / class, async block statements
     '@dec\nasync def f():\n    x\n    y\n@dec\nclass K:\n    @a\n    async def m(self):\n        z\n    @b\n    def n(self):\n        w\n'
     'async def o():\n    async with p as q:\n        r\n    async for s in t:\n        u\n',
+    # last statement continued by a backslash, no line break at the end of the file; CR-only line ends
+    'a = 1\rb = 2 \\\r# done',
+    'def f():\n    a = 1\nb = 2 \\\n\\\n# done',
 ]
 POOL = ['    x = 1', 'def h():', '  (', ')', '"""', 'else:', '        pass', '@d', 'class K: pass', '\tz', '    return', 'if 1:',
         "f'{", 'x = [', '# c', '', ' ', 'async def q():', '    \\', 'import a; b', 'async def r(): s.', '@t']
@@ -119,7 +122,11 @@ def run_one(args):
                 # the fresh tokenizer reads the rest of the file at bracket depth > 0 (no NEWLINE / INDENT tokens)
                 depth = sum((x.value in ('(', '[', '{')) - (x.value in (')', ']', '}'))
                             for x in nodes_of(fresh) if is_leaf(x) and x.type in ('operator', 'error_leaf'))
-                if lm == lf and broken:
+                import re as _re
+                if any(_re.search(r'\\(?:\r\n|\r|\n)[ \t]*\\(?:\r\n|\r|\n)[^\r\n]*\Z', x) for x in texts[:step + 1]):
+                    # some text of the history ended in two backslash continuations in a row and no final line break
+                    sig = 'tree:two-continuations-before-eof'
+                elif lm == lf and broken:
                     sig = 'tree:same-leaves-different-recovery-nesting'
                 elif broken and depth > 0:
                     sig = 'tree:unclosed-bracket-depth-not-carried'
